@@ -88,7 +88,10 @@ pub async fn run_sender_with_config(
 
     // Shell-owned I/O half of every connection, keyed by conn_id (never by
     // index — so no lockstep with the connections vec through add/remove).
+    #[cfg(not(feature = "verif-model"))]
     let mut conn_io: ConnIoMap = std::collections::HashMap::new();
+    #[cfg(feature = "verif-model")]
+    let mut conn_io: ConnIoMap = ConnIoMap::new();
     let mut connections =
         create_connections_from_ips(&ips, receiver_host, receiver_port, &binder, &mut conn_io)
             .await;
